@@ -95,6 +95,11 @@ def cases(ctx):
         if mine():
             yield {"kind": "ret_arr_long", "address": pick(rng, I32), "length": ln, "p_none": rng.choice([0.1, 0.5, 0.9]),
                    "seed": rng.randrange(2**31)}
+    # medium and long arrays in which EVERY entry is defined (a filled result array), or every entry undefined, negative values included
+    for ln in (1000, 4095, 4096, 4097, 5000, 20000):
+        for p_none in (0.0, 1.0):
+            if mine():
+                yield {"kind": "ret_arr_long", "address": pick(rng, I32), "length": ln, "p_none": p_none, "seed": rng.randrange(2**31)}
     for ln in (4, 64):
         if mine():
             yield {"kind": "threaded", "threads": 4, "length": ln, "rounds": 1500 if ctx.quick else 20000}
